@@ -93,13 +93,19 @@ Outcome runGrid(const Plan & p, Ctx & c)
       CI i; i[0] = (size_t)x; i[1] = (size_t)y; if (DIM == 3) {i[(long)(DIM - 1)] = (size_t)z;}
       return i;
     };
+  // in half of the runs the read-back is made on a copy of the grid, so that reading every cell after every op does not
+  // refresh whatever an op left inside the subject (a cached index, a lazily applied offset)
+  const bool observeOnCopy = (p.junk & 1) != 0;
   auto observe = [&](const char * after, size_t opNo) -> Outcome {
+      std::unique_ptr<Grid> probe(observeOnCopy ? new Grid(*gridPtr) : nullptr);
+      Grid & seen = observeOnCopy ? *probe : *gridPtr;
+      if (observeOnCopy) {SIM_PROBE("cells_read_back_from_a_copy_of_the_grid");}
       for (int z = 0; z < m.n[2]; ++z) {
         for (int y = 0; y < m.n[1]; ++y) {
           for (int x = 0; x < m.n[0]; ++x) {
             // alternate between the const and the non-const accessor
-            const Grid & cgrid = grid;
-            T got = ((x + y + z + (int)opNo) & 1) ? cgrid(idx(x, y, z)) : grid(idx(x, y, z));
+            const Grid & cgrid = seen;
+            T got = ((x + y + z + (int)opNo) & 1) ? cgrid(idx(x, y, z)) : seen(idx(x, y, z));
             c.log(Enc<T>::h(got));
             int64_t want = m.at(x, y, z);
             if (want != kPristine && !(got == Enc<T>::of(want))) {
@@ -110,7 +116,7 @@ Outcome runGrid(const Plan & p, Ctx & c)
           }
         }
       }
-      const CI & off = grid.getIndexOffsetAlongAxes();
+      const CI & off = seen.getIndexOffsetAlongAxes();
       for (size_t k = 0; k < DIM; ++k) {
         c.log(off[(long)k]);
         if ((long long)off[(long)k] != m.off[k]) {
